@@ -167,7 +167,7 @@ def _do_job(job, mods):
                     'v': [float(x) for x in sv.singular_vectors_right_.reshape(-1)],
                     'sigma': float(sv.singular_values_[0])}
         return {'err': 'UnknownJob'}
-    except (ValueError, IndexError, TypeError, KeyError, ZeroDivisionError) as e:
+    except Exception as e:      # any exception is an answer of the implementation (ArpackNoConvergence, FloatingPointError, ...)
         return {'err': type(e).__name__, 'msg': str(e)[:200]}
 
 
@@ -634,6 +634,49 @@ def connect(rng, n, es, directed):
     return sorted(set(es))
 
 
+def raw_graph(n, rows):
+    """graph description with the rows exactly as given: (column, value) pairs in storage order — stored zeros,
+    duplicate entries, unsorted columns are kept"""
+    indptr, indices, data = [0], [], []
+    for r in rows:
+        for j, v in r:
+            indices.append(int(j))
+            data.append(float(v))
+        indptr.append(len(indices))
+    return {'n': n, 'indptr': indptr, 'indices': indices, 'data': data}
+
+
+def diamond_chain(k):
+    """undirected chain of k diamonds a_i - {b_i, c_i} - a_{i+1}: 2^k shortest paths between its ends (n = 3k + 1)"""
+    n = 3 * k + 1
+    es = []
+    for i in range(k):
+        a, b, c, a2 = 3 * i, 3 * i + 1, 3 * i + 2, 3 * i + 3
+        for u, v in ((a, b), (a, c), (b, a2), (c, a2)):
+            es += [(u, v), (v, u)]
+    return n, es
+
+
+def degenerate_graphs(rng):
+    """(name, graph, pattern_symmetric) : connected graphs in non-canonical or unusual storage"""
+    out = []
+    # path 0-1-2 with stored zeros at (0,2) and (2,0): a stored zero is not an edge
+    out.append(('stored_zero', raw_graph(3, [[(1, 1), (2, 0)], [(0, 1), (2, 1)], [(0, 0), (1, 1)]]), True))
+    # diamond 0-{1,2}-3 with the edge 0-1 stored twice: duplicate entries sum to one entry
+    out.append(('duplicate', raw_graph(4, [[(1, 1), (1, 1), (2, 1)], [(0, 1), (0, 1), (3, 1)], [(0, 1), (3, 1)], [(1, 1), (2, 1)]]), True))
+    # unsorted columns
+    out.append(('unsorted', raw_graph(4, [[(2, 1), (1, 1)], [(3, 1), (0, 1)], [(3, 1), (0, 1)], [(2, 1), (1, 1)]]), True))
+    # self-loops on a path and on a star
+    out.append(('self_loops', raw_graph(3, [[(0, 1), (1, 1)], [(0, 1), (1, 2), (2, 1)], [(1, 1), (2, 3)]]), True))
+    out.append(('self_loop_star', raw_graph(4, [[(0, 5), (1, 1), (2, 1), (3, 1)], [(0, 1)], [(0, 1)], [(0, 1)]]), True))
+    # symmetric pattern, asymmetric weights: still an undirected graph for hop-count centralities
+    out.append(('asym_weights', raw_graph(3, [[(1, 2)], [(0, 1), (2, 3)], [(1, 0.5)]]), True))
+    out.append(('asym_weights4', raw_graph(4, [[(1, rng.choice([2, 3])), (2, 1)], [(0, 1), (3, 4)], [(0, 7), (3, 1)], [(1, 1), (2, 2)]]), True))
+    # directed with a stored zero closing a cycle
+    out.append(('directed_stored_zero', raw_graph(3, [[(1, 1)], [(2, 1)], [(0, 0), (1, 1)]]), False))
+    return out
+
+
 def other_plan(ctx):
     from vlib import graphs
     rng = ctx.rng
@@ -671,6 +714,17 @@ def other_plan(ctx):
             cg.append((n, es))
     for n, es in cg:
         plan.append({'kind': 'closeness', 'graph': gdesc(mk(n, es, [rng.choice(WEIGHT_CHOICES) for _ in es]))})
+    # degenerate stream: non-canonical storage, self-loops, asymmetric weights, the single node (documented: nan)
+    for name, g, sym in degenerate_graphs(rng):
+        plan.append({'kind': 'closeness', 'graph': g, 'name': name})
+        plan.append({'kind': 'betweenness', 'graph': g, 'directed': not sym, 'name': name})
+        ctx.count('degenerate:' + name)
+    plan.append({'kind': 'closeness', 'graph': raw_graph(1, [[(0, 1)]]), 'name': 'single_node'})
+    plan.append({'kind': 'betweenness', 'graph': raw_graph(1, [[(0, 1)]]), 'directed': False, 'name': 'single_node'})
+    # path counts beyond 2^31: chains of 31 and 32 diamonds (run line only: the model is proved equal to the specification)
+    for k in (31, 32):
+        n, es = diamond_chain(k)
+        plan.append({'kind': 'betweenness', 'graph': gdesc(mk(n, es)), 'directed': False, 'name': 'diamonds%d' % k, 'big': True})
     # ---- betweenness: connected undirected graphs exhaustively to n = 4, sampled n = 5, structured; directed sample
     bg = []
     for n in (2, 3, 4):
@@ -683,7 +737,11 @@ def other_plan(ctx):
         if es:
             bg.append((n, es))
     for n, es in bg:
-        plan.append({'kind': 'betweenness', 'graph': gdesc(mk(n, es)), 'directed': False})
+        wts = graphs.sym_weights(rng, es, WEIGHT_CHOICES) if rng.random() < 0.3 else None
+        a = mk(n, es, wts)
+        if rng.random() < 0.2:
+            a = graphs.unsorted_copy(a, rng)
+        plan.append({'kind': 'betweenness', 'graph': gdesc(a), 'directed': False})
     dg = [es for es in all_digraphs(3) if es and weakly_connected(3, es) and not is_symmetric_edges(es)]
     for es in rng.sample(dg, 12 if quick else len(dg)):
         plan.append({'kind': 'betweenness', 'graph': gdesc(mk(3, es)), 'directed': True})
@@ -743,6 +801,11 @@ def eval_other(ctx, plan):
             sig['directed'] = bool(job['directed'])
         impl_err = 'err ' + r['err'] if 'err' in r else None
         vals = [x for k in ('scores', 'values', 'row', 'col', 'u', 'v') for x in (r.get(k) or [])]
+        if kind == 'closeness' and g['n'] == 1:
+            # one node: (n-1)/n / mean([0]) = 0/0; the model reports `nan` (outside the property: there is no other node)
+            lines.append('c04.closeness %s' % enc_graph(g))
+            meta.append((job, r, sig, 'run', 'nan' if (vals and all(math.isnan(x) for x in vals)) else (impl_err or vals), 0.0))
+            continue
         if any(math.isnan(x) or math.isinf(x) for x in vals) and kind != 'values':
             # a NaN / infinite score is not a value of the definition: the input is a failing input as it stands
             ctx.case((kind, 'nonfinite', json.dumps(job, sort_keys=True)), True)
@@ -779,8 +842,8 @@ def eval_other(ctx, plan):
         elif kind == 'betweenness':
             gt = enc_graph(g)
             run = 'c04.betweenness %s' % gt
-            spec = None if impl_err else 'c04.spec_betweenness %s %d %s %s' % (gt, 1 if job['directed'] else 0,
-                                                                               enc_ratlist(r['scores']), enc_rat(F32_TOL))
+            spec = None if (impl_err or job.get('big')) else 'c04.spec_betweenness %s %d %s %s' % (
+                gt, 1 if job['directed'] else 0, enc_ratlist(r['scores']), enc_rat(F32_TOL))
             tol = F32_TOL
         else:  # hits
             if impl_err:
@@ -827,6 +890,10 @@ def eval_other(ctx, plan):
         if isinstance(impl, str):
             if impl.startswith('err'):
                 ctx.count('run:%s:error' % job['kind'])
+                if ans.startswith('ok') and job['kind'] in ('katz', 'closeness', 'betweenness'):
+                    # the model (proved equal to the definition) answers: the input is valid and the code refuses it
+                    ctx.spec_fail(sig, job, {'impl': impl, 'msg': r.get('msg'), 'model': ans[:200]})
+                    continue
             if ans != impl:
                 if ans.startswith('ok ') and impl.startswith('ok ') and job['kind'] == 'hits':
                     if [float(x) for x in dec_ratlist(ans[3:])] == [float(x) for x in dec_ratlist(impl[3:])]:
